@@ -253,6 +253,7 @@ theorem disjuncts_horn (b : Term) (h : bodyS fl b = true) : SLD.disjuncts b = [b
         simp only [Term.app.injEq, Args.cons.injEq, true_and, and_true] at hx'
         exact hna c t hx'.1
       | ifthen c t hx' => simp at hx'
+      | once x' hx' => simp at hx'
   · rfl
 
 /-- the clause as the reference stores it: `Head :- Body` -/
